@@ -90,6 +90,7 @@ struct Config
     int64_t  tick_ms{5}; // lfuda
     int      ratio_num{1}, ratio_den{2};
     uint64_t seed{1};
+    int      kmode{0}; // key table variant (vv::key_mode)
 };
 
 struct KV
